@@ -476,6 +476,66 @@ def large_cases(rng, quick):
     return cs
 
 
+# ---- concurrent renders of one instance
+
+CONC_KEYS = ("alpha", "compress", "override", "method", "mix", "z", "via", "blend")
+
+
+def conc_threads(base, *overrides):
+    """per-thread render arguments, each COMPLETE for the keys that may differ"""
+    return [{k: {**base, **o}.get(k) for k in CONC_KEYS if k in {**base, **o}} for o in overrides]
+
+
+def conc_cases(rng, quick):
+    cs = []
+
+    def add(c, sched, *overrides):
+        c = dict(c)
+        c.pop("envchg", None)
+        c["conc"] = {"threads": conc_threads(c, *(overrides or ({}, {}))), "sched": sched}
+        cs.append(c)
+
+    def noise(mode, w, h, fmt=None):
+        return new_src(rng, mode, w, h, fmt=fmt, style=0)
+
+    it = dict(method="lines", set_method=None, override="lines")
+    # iterm2 LINES (PNG per line), every gate event of a 3-line render; PIL- and file-sourced
+    add(gfx("iterm2", rng, **it, size=[4, 3], cell=[4, 4], src=noise("RGB", 16, 12), source="pil"), "each")
+    add(gfx("iterm2", rng, **it, size=[3, 2], cell=[5, 3], src=noise("RGBA", 9, 7, "PNG"), source="file", alpha=[0.5],
+            term="konsole"), "each")
+    # ... the two renders with different arguments (transparency off / background colour, compression)
+    two = gfx("iterm2", rng, **it, size=[3, 3], cell=[4, 5], src=noise("RGBA", 12, 15), source="pil", alpha=None, term="wezterm")
+    pairs = [[k, j] for k in range(1, 21) for j in range(1, 21)]
+    add(two, ["pairs", rng.sample(pairs, 10) if quick else pairs], {"alpha": None, "compress": 0}, {"alpha": "#ffffff", "compress": 9})
+    # ... JPEG per line
+    add(gfx("iterm2", rng, **it, size=[4, 2], cell=[4, 6], src=noise("RGB", 16, 12), source="pil", jq=60), "each")
+    # ... one thread LINES, the other WHOLE
+    add(gfx("iterm2", rng, **it, size=[4, 2], cell=[4, 4], src=noise("RGB", 20, 10), source="pil"), "each",
+        {"override": "lines", "method": "lines"}, {"override": "whole", "method": "whole"})
+    # iterm2 WHOLE, kitty LINES / WHOLE
+    add(gfx("iterm2", rng, method="whole", set_method=None, override="whole", size=[4, 2], cell=[4, 4], src=noise("RGB", 20, 10),
+            source="pil"), "each")
+    add(gfx("kitty", rng, method="lines", set_method=None, override="lines", size=[4, 3], cell=[4, 4], src=noise("RGBA", 16, 12),
+            source="pil", alpha=[0.5], compress=4), "each", {"alpha": [0.5], "compress": 4}, {"alpha": None, "compress": 0})
+    add(gfx("kitty", rng, method="whole", set_method=None, override="whole", size=[4, 3], cell=[4, 4], src=noise("RGB", 9, 9, "PNG"),
+            source="file"), "each")
+    # all pairs of park points of two 2-line iterm2 LINES renders
+    small = gfx("iterm2", rng, **it, size=[3, 2], cell=[3, 3], src=noise("RGB", 9, 6), source="pil")
+    pairs = [[k, j] for k in range(1, 15) for j in range(1, 15)]
+    add(small, ["pairs", rng.sample(pairs, 12) if quick else pairs])
+    if not quick:
+        for _ in range(12):
+            style = rng.choice(["iterm2", "iterm2", "kitty"])
+            m = rng.choice(["lines", "lines", "whole"])
+            mode = rng.choice(["RGB", "RGBA"])
+            rh = rng.randint(1, 4)
+            c = gfx(style, rng, method=m, set_method=None, override=m, size=[rng.randint(1, 5), rh], cell=[rng.randint(2, 6), rng.randint(2, 8)],
+                    src=noise(mode, rng.randint(4, 24), rng.randint(4, 24), rng.choice([None, "PNG"])), alpha=rng.choice([None, [0.5], "#"]))
+            c["source"] = "pil" if c["src"]["fmt"] is None else rng.choice(["file", "pil_file"])
+            add(c, "each", {}, {"alpha": rng.choice([None, [0.5], "#102030"]), "compress": rng.randint(0, 9)})
+    return cs
+
+
 def spread(cases, extra):
     """`extra` inserted at evenly spaced positions (the implementation runs contiguous slices of
     the case list in parallel processes: the expensive cases should not share one)"""
@@ -663,7 +723,15 @@ def evaluate(cases, tag="c03"):
     impl0 = core.run_impl_parallel("impl_c03.py", cases, timeout=600)
     cases0, cases, impl = cases, [], []
     for c, r in zip(cases0, impl0):
-        if "each" in r:
+        if c.get("conc") and "driver_error" not in r:
+            # concurrent renders: every (schedule, thread) is one judged case, carrying that thread's arguments
+            runs = r["each"] if "each" in r else [[c["conc"]["sched"], r["threads"]]]
+            for sch, rs in runs:
+                for i, rr in enumerate(rs):
+                    if c["conc"].get("judge") in (None, i):
+                        cases.append({**c, **c["conc"]["threads"][i], "conc": {**c["conc"], "sched": sch, "judge": i}})
+                        impl.append(rr)
+        elif "each" in r:
             for at, rr in r["each"]:
                 cases.append({**c, "envchg": {**c["envchg"], "at": at}})
                 impl.append(rr)
@@ -721,6 +789,23 @@ def simpler(case):
             out.append({**case, "level": 0})
         if case.get("noise", True):
             out.append({**case, "noise": False})
+        return out
+    if case.get("conc"):
+        conc = case["conc"]
+        sch = conc["sched"]
+        if isinstance(sch, list) and sch and isinstance(sch[0], list):
+            for g in range(len(sch)):
+                if sch[g][1] is not None and len(sch[g]) > 2 and sch[g][2] > 1:
+                    for k in sorted({1, sch[g][2] // 2, sch[g][2] - 1}):
+                        if k < sch[g][2]:
+                            out.append({**case, "conc": {**conc, "sched": sch[:g] + [[sch[g][0], sch[g][1], k]] + sch[g + 1:]}})
+            if len(sch) == 4 and sch[1][1] is not None:  # the second thread renders completely instead
+                out.append({**case, "conc": {**conc, "sched": [sch[0], [1, None, 1], [0, None, 1]]}})
+        if any(t != conc["threads"][0] for t in conc["threads"]):
+            j = conc.get("judge") or 0
+            out.append({**case, "conc": {**conc, "threads": [conc["threads"][j]] * len(conc["threads"])}})
+        if not isinstance(case["size"], str) and case["size"][1] > 2:
+            out.append({**case, "size": [case["size"][0], case["size"][1] - 1]})
         return out
     if case.get("ops"):
         ops = case["ops"]
@@ -805,6 +890,10 @@ def describe(c):
     if c.get("ops"):
         extra += (f" HISTORY (PIL image on frame {c.get('pre', 0)} when wrapped): "
                   + ", ".join(o[0] + (f"({o[1]})" if len(o) > 1 else "") for o in c["ops"]) + " <- this render")
+    if c.get("conc"):
+        cc = c["conc"]
+        extra += (f" CONCURRENT renders of the one instance by {len(cc['threads'])} threads, schedule [thread, run until gate, n-th time] = "
+                  f"{json.dumps(cc['sched'])}, per-thread arguments {json.dumps(cc['threads'])}; THIS is the output of thread {cc.get('judge')}")
     if c.get("envchg"):
         g = c["envchg"]
         if g.get("at") is None:
@@ -823,6 +912,8 @@ def signature(c):
                                    "set_method", "set_level", "override", "dynamic", "term_size", "ops", "pre")}
     if c.get("envchg"):
         keep["envchg"] = [c["envchg"].get(k) for k in ("at", "cell", "term", "ratio")]
+    if c.get("conc"):
+        keep["conc"] = [c["conc"].get("sched"), c["conc"].get("judge"), c["conc"].get("threads")]
     s = c.get("src") or {}
     keep["src"] = [s.get("kind"), s.get("name"), s.get("mode"), s.get("w"), s.get("h"), s.get("fmt"), s.get("frames")]
     if s.get("file_size"):
@@ -844,6 +935,11 @@ def first_ill_formed(items):
 def nontrivial(c, r):
     if "driver_error" in r or r.get("raised"):
         return False
+    if c.get("conc"):  # the other thread ran while this render was parked strictly inside
+        j = c["conc"].get("judge")
+        who = [int(x.split(":")[0]) for x in r.get("gate_log", [])]
+        mine = [k for k, t in enumerate(who) if t == j]
+        return bool(mine) and any(t != j for t in who[mine[0]:mine[-1]])
     if c.get("ops"):  # a history: the shared PIL object is NOT on frame tell when the render starts
         return r["fr"]["pilpos"] >= 0 and r["fr"]["pilpos"] != r["fr"]["tell"]
     if c.get("unit") or c["style"] == "kitty":
@@ -869,6 +965,7 @@ def run(ctx):
         cases += [iterm2_case(rng) for _ in range(ni)]
         cases += [iterm2_case(rng, animated=True) for _ in range(nia)]
         cases += hist_cases(rng, ctx.quick)
+        cases += conc_cases(rng, ctx.quick)
         cases = spread(cases, large_cases(rng, ctx.quick))
         if not ctx.quick:
             cases.append({"style": "iterm2", "method": "anim", "size": [4, 2], "cell": [6, 12],
@@ -884,7 +981,10 @@ def run(ctx):
             "cell_size_reads_inside_render_image": {}, "dynamic_size": 0,
             "history_renders": 0, "history_source": {}, "history_ops_before_render": {},
             "history_pil_object_off_the_current_frame": 0, "history_current_frame_0_pil_object_elsewhere": 0,
-            "history_via": {}, "largest_single_payload_bytes_log2": {}, "payload_at_power_of_two_boundary": 0}
+            "history_via": {}, "largest_single_payload_bytes_log2": {}, "payload_at_power_of_two_boundary": 0,
+            "concurrent": {"judged_outputs": 0, "style/method": {}, "parked_inside_while_other_thread_ran": 0,
+                           "threads_with_different_arguments": 0, "thread0_parked_after_gate": {},
+                           "both_threads_parked_inside": 0}}
 
     def inc(d, k):
         d[str(k)] = d.get(str(k), 0) + 1
@@ -910,6 +1010,19 @@ def run(ctx):
             hist["override_differs_from_set_method"] += bool(setm and over and setm != over)
             hist["dynamic_size"] += bool(c.get("dynamic"))
             inc(hist["cell_size_reads_inside_render_image"], len(r.get("reads_in", [])))
+            if c.get("conc"):
+                hc, cc = hist["concurrent"], c["conc"]
+                hc["judged_outputs"] += 1
+                inc(hc["style/method"], f"{c['style']}/{c['method']}")
+                hc["parked_inside_while_other_thread_ran"] += nontrivial(c, r)
+                hc["threads_with_different_arguments"] += any(t != cc["threads"][0] for t in cc["threads"])
+                log = r.get("gate_log", [])
+                sch = cc["sched"]
+                if cc.get("judge") == 0 and sch and sch[0][1] == "*":
+                    mine = [x for x in log if x.startswith("0:")]
+                    k = sch[0][2]
+                    inc(hc["thread0_parked_after_gate"], mine[k - 1].split(":")[1] if k <= len(mine) else "end")
+                    hc["both_threads_parked_inside"] += len(sch) == 4
             if c.get("ops") and "fr" in r:
                 f = r["fr"]
                 hist["history_renders"] += 1
